@@ -236,12 +236,13 @@ def lookup (m : List (Nat × Nat)) (k : Nat) : Option Nat := (m.find? (·.1 = k)
 /-- node of the block tree -/
 def inBt (t : Tree) (s : St) (b : Blk) : Bool := s.live.contains b && anc t s.root b
 
-/-- `BlockState.IsDescendantOf`: the block tree answers when it holds both blocks; otherwise headers are
-    followed, which fails for a block that is neither in the tree nor on the finalised chain -/
+/-- `GrandpaState.isDescendantOf` over `BlockState.IsDescendantOf`: the block tree answers when it holds both
+    blocks; otherwise headers are followed, which fails with `database.ErrNotFound` for a block that is
+    neither in the tree nor on the finalised chain — the wrapper turns that into "not a descendant" -/
 def isDesc (t : Tree) (s : St) : IsD := fun a d =>
   if a = d then some true
   else if s.live.contains a && s.live.contains d then some (anc t a d)
-  else none
+  else some false
 
 /-- `startNextAuthoritySet` -/
 def startNext (s : St) (tag at_ : Nat) : St :=
